@@ -132,10 +132,10 @@ package client
 //@   partial
 //@   requires input != nil
 //@   ensures[C02,C04,C17] result.Index == indexName && result.Aliases == input.ExpressionAttributeNames && !result.Scan && !result.started && result.ConditionExpression == nil
-//@   ensures[C02,C04,C17] result.Limit == (input.Limit == nil ? 0 : *input.Limit)
-//@   ensures[C02,C04,C17] result.KeyConditionExpression == (input.KeyConditionExpression == nil ? "" : *input.KeyConditionExpression)
-//@   ensures[C02,C04,C17] result.FilterExpression == (input.FilterExpression == nil ? "" : *input.FilterExpression)
-//@   ensures[C02,C04,C17] result.ScanIndexForward == (input.ScanIndexForward != nil && *input.ScanIndexForward)
+//@   ensures[C02,C04,C17] result.Limit == old(input.Limit == nil ? 0 : *input.Limit)
+//@   ensures[C02,C04,C17] result.KeyConditionExpression == old(input.KeyConditionExpression == nil ? "" : *input.KeyConditionExpression)
+//@   ensures[C02,C04,C17] result.FilterExpression == old(input.FilterExpression == nil ? "" : *input.FilterExpression)
+//@   ensures[C02,C04,C17] result.ScanIndexForward == old(input.ScanIndexForward != nil && *input.ScanIndexForward)
 
 // ---- C10 / C14: SDK value -> internal item, one level ---------------------------------------------
 // No clause names a modifies set: every function below changes no object that existed before the call
